@@ -323,7 +323,9 @@ _LOAD_DIR: list[str] = []
 def _load_dir() -> str:
     """A small template directory (created once per process, removed at exit)."""
     if not _LOAD_DIR:
-        d = tempfile.mkdtemp(prefix="lv-c02-")
+        # inside the run's scratch directory when there is one (the parent removes it; forked workers leave
+        # through os._exit and never run atexit handlers)
+        d = tempfile.mkdtemp(prefix="lv-c02-", dir=os.environ.get("LV_CRUMB_DIR") or None)
         os.makedirs(os.path.join(d, "sub"))
         os.makedirs(os.path.join(d, "dir"))
         for rel in ("a.html", "a", "sub/b.html", "x.liquid"):
@@ -435,6 +437,11 @@ class C02(Prop):
 
     def enumerated_is_exhaustive(self, tier: str) -> bool:
         return False
+
+    def setup_worker(self) -> None:
+        # created once by the main process (whose atexit handler removes it); forked workers and guarded
+        # children inherit it instead of making one each
+        _load_dir()
 
     def budget_s(self, tier: str) -> float:
         return 240 if tier == "quick" else 3000
